@@ -535,6 +535,9 @@ class Sim:
         self.rec("write", tr.label, tr.conn.cid, data, dropped)
         self.writes[tr.label].append((self.evno, tr.conn.cid, data, dropped))
 
+    def after_write(self, tr):
+        pass
+
     def on_transport_lost(self, tr, exc):
         self.rec("conn_lost", tr.label, tr.conn.cid, type(exc).__name__ if exc else None)
 
